@@ -462,6 +462,8 @@ func sweepTokens(c *core.Ctx, judge judgeFn) {
 // real binary as a one-liner (-e) and as a script file, in a directory holding two helper modules.
 var cliStmts = []string{
 	`invite!("./h1")`, `invite!("./h2")`, `m := import("./h1")`, `import("./h2").p`, `read("./h1.pangaea").len.p`, `{|| invite!("./h2")}()`, `nil.try.{invite!("./nosuch")}.err?.p`, `v1.p`,
+	// a helper module that does not parse, loaded (and survived) more than once
+	`nil.try.{import("./hb")}.err?.p`, `nil.try.{invite!("./hb")}.err?.p`,
 }
 
 func sweepCLI(c *core.Ctx, judge judgeFn) {
@@ -502,6 +504,7 @@ func judgeCLI(c *core.Ctx, judge judgeFn, cli string, s scase) {
 	defer os.RemoveAll(dir)
 	os.WriteFile(filepath.Join(dir, "h1.pangaea"), []byte("v1 := 41\nv"+strings.Repeat("y", 80)+" := 1\n"), 0o644)
 	os.WriteFile(filepath.Join(dir, "h2.pangaea"), []byte("invite!(\"./h1\")\nv2 := v1 + 1\n"), 0o644)
+	os.WriteFile(filepath.Join(dir, "hb.pangaea"), []byte("vb := (1\n"), 0o644)
 	args := []string{"30", cli, "-e", s.Src}
 	if s.Mode == "cli-file" {
 		os.WriteFile(filepath.Join(dir, "main.pangaea"), []byte(s.Src+"\n"), 0o644)
